@@ -9,6 +9,7 @@ import (
 	"sort"
 	"strconv"
 	"strings"
+	"sync"
 	"time"
 )
 
@@ -47,6 +48,7 @@ type Report struct {
 	Extra       map[string]interface{}
 	Floors      []string // vacuity guards that were evaluated
 	keys        map[string]bool
+	mu          sync.Mutex
 }
 
 // Home is the /verif directory.
@@ -69,7 +71,23 @@ func New(prop, tier, level string) *Report {
 		Counters: map[string]int{}, Extra: map[string]interface{}{}, keys: map[string]bool{}}
 }
 
+// Undischarged returns a copy of the obligations recorded so far that are not discharged (safe to call while another
+// goroutine is still adding obligations).
+func (r *Report) Undischarged() []Obligation {
+	r.mu.Lock()
+	defer r.mu.Unlock()
+	var out []Obligation
+	for _, o := range r.Obls {
+		if o.Status != Discharged {
+			out = append(out, o)
+		}
+	}
+	return out
+}
+
 func (r *Report) add(o Obligation) {
+	r.mu.Lock()
+	defer r.mu.Unlock()
 	k := o.Key
 	for i := 2; r.keys[k]; i++ {
 		k = fmt.Sprintf("%s#%d", o.Key, i)
